@@ -873,6 +873,10 @@ class Escape:
                 cd = self.ctx.cdefs(cal.struct[0]).get(cal.struct[1])
                 if cd is not None:
                     return [(cd, cal.struct[2])]
+            # a struct type chosen from a constant table: T = TABLE.get(key[, default]) / TABLE[key]; T(fh)
+            types = self._struct_type_alternatives(f, e.func, depth + 1)
+            if types:
+                return types
             return []
         if isinstance(e, ast.Subscript):
             return self._struct_field_types(f, e.value, depth + 1)
@@ -911,6 +915,46 @@ class Escape:
                             return r
             return out
         return []
+
+    def _struct_type_expr(self, f: Func, v: ast.AST):
+        """(cdefs, struct name) if v names a struct type of a cstruct instance (`pestruct.IMAGE_X`), else None."""
+        if isinstance(v, ast.Attribute):
+            s = self.rs.lookup_dotted(f.module.name, dotted(v.value) or "")
+            if s is not None and s.kind == "cstruct":
+                cd = self.ctx.cdefs(s.module).get(s.name)
+                if cd is not None and v.attr in cd.structs:
+                    return (cd, v.attr)
+        return None
+
+    def _struct_type_alternatives(self, f: Func, callee: ast.AST, depth: int = 0):
+        """All struct types a callable expression may denote when it is picked from a module-level constant mapping
+        (`TABLE.get(k, default)`, `TABLE[k]`, possibly through a local); [] if that cannot be established for every
+        alternative."""
+        if depth > 5:
+            return []
+        o = origin(f.node, callee)
+        t = self._struct_type_expr(f, o)
+        if t:
+            return [t]
+        table = default = None
+        if isinstance(o, ast.Call) and isinstance(o.func, ast.Attribute) and o.func.attr == "get" and o.args:
+            table, default = o.func.value, (o.args[1] if len(o.args) > 1 else None)
+        elif isinstance(o, ast.Subscript):
+            table = o.value
+        if table is None or not isinstance(table, ast.Name) or table.id not in f.module.consts or assignments_to(f.node, table.id):
+            return []
+        lit = f.module.consts[table.id]
+        if isinstance(lit, ast.Call) and lit.args and (dotted(lit.func) or "").split(".")[-1] in ("MappingProxyType", "dict"):
+            lit = lit.args[0]
+        if not isinstance(lit, ast.Dict):
+            return []
+        out = []
+        for v in list(lit.values) + ([default] if default is not None and not (isinstance(default, ast.Constant) and default.value is None) else []):
+            t = self._struct_type_expr(f, v)
+            if not t:
+                return []
+            out.append(t)
+        return out
 
     def _struct_of(self, f: Func, e: ast.AST):
         r = self._structs_of(f, e)
@@ -1024,8 +1068,29 @@ class Escape:
             return False
         if isinstance(it, ast.Name):
             defs = assignments_to(f.node, it.id)
-            real = [(s, v) for s, v in defs if not (isinstance(v, (ast.List, ast.Tuple)) and not v.elts)]
-            return bool(real) and all(v is not None and self._elems_nonneg(f, v, s, idx, depth + 1) for s, v in real)
+            real = [(s, v) for s, v in defs if not (isinstance(v, (ast.List, ast.Tuple)) and not v.elts)
+                    and not (isinstance(v, ast.Call) and dotted(v.func) in ("list", "set", "collections.Counter", "Counter", "collections.deque", "deque") and not v.args)]
+            # elements put into the container in place: x.append(e) / x.add(e) / x.extend(es) / x.update(es) / x += es
+            grown = []
+            for n in body_walk(f.node):
+                if isinstance(n, ast.Call) and isinstance(n.func, ast.Attribute) and dotted(n.func.value) == it.id and n.args:
+                    if n.func.attr in ("append", "add", "appendleft"):
+                        grown.append(("elem", n.args[0], FuncView.of(f.node).stmt_of(n) or at))
+                    elif n.func.attr in ("extend", "update", "extendleft"):
+                        grown.append(("iter", n.args[0], FuncView.of(f.node).stmt_of(n) or at))
+                    elif n.func.attr in ("insert",) and len(n.args) == 2:
+                        grown.append(("elem", n.args[1], FuncView.of(f.node).stmt_of(n) or at))
+                elif isinstance(n, ast.AugAssign) and dotted(n.target) == it.id and isinstance(n.op, ast.Add):
+                    grown.append(("iter", n.value, n))
+            if not real and not grown:
+                return False
+            for kind, v, s in grown:
+                if kind == "elem":
+                    if idx is not None or not self.nonneg(f, v, s, depth + 1):
+                        return False
+                elif not self._elems_nonneg(f, v, s, idx, depth + 1):
+                    return False
+            return all(v is not None and self._elems_nonneg(f, v, s, idx, depth + 1) for s, v in real)
         if isinstance(it, ast.Call):
             d = dotted(it.func)
             if d == "range" and idx is None:
@@ -1060,6 +1125,9 @@ class Escape:
                 base = origin(f.node, it.func.value)
                 if isinstance(base, ast.Call) and dotted(base.func) in ("collections.Counter", "Counter") and base.args:
                     return self._elems_nonneg(f, base.args[0], at, None, depth + 1)
+                if isinstance(it.func.value, ast.Name):
+                    # a Counter filled in place: its keys are the elements it was updated with
+                    return self._elems_nonneg(f, it.func.value, at, None, depth + 1)
                 return False
             cal = self.rs.resolve_call(f, it)
             if cal.kind == "func" and cal.func is not None and idx is None:
